@@ -307,11 +307,68 @@ def r08d(ctx, rep):
     rep.floor('R08d', 'router functions that call CheckpointManager::rollback', n, 2)
 
 
+def r08e(ctx, rep):
+    rep.rule('R08e', 'what the checkpoint list reads, the checkpoint writer wrote: every custom-metadata key that CheckpointStorage::list / '
+                     'find_by_id_or_name look up on an artifact ("checkpoint_id", "checkpoint_name", "created_at", "trigger") is a key '
+                     'CheckpointStorage::store attaches with PutOptions::with_meta. Retention orders checkpoints by "created_at"; without '
+                     'it list() falls back to the blob\'s own stamp, which a rollback that re-stores checkpoints resets to "now" — and '
+                     'retention then purges a newer checkpoint and keeps the oldest')
+    cr = ctx.crate('tensor_checkpoint')
+    ST = 'tensor_checkpoint::storage::CheckpointStorage::'
+
+    def strs(fnames, pat, argi):
+        out = set()
+        found = 0
+        for base in fnames:
+            for g in A.with_closures(cr.fns, ST + base):
+                found += 1
+                gd = A.Defs(g)
+                for c in A.calls(g):
+                    if not re.search(pat, c.resolved) or len(c.args) <= argi:
+                        continue
+                    op = c.args[argi]
+                    for _ in range(5):   # `&*"key"` through a temporary
+                        if op[0] == 'k':
+                            break
+                        d = A.single_def(gd, op[1][0])
+                        if not d or d[2] != 'st':
+                            break
+                        rv = d[3][1]
+                        if rv[0] == 'use':
+                            op = rv[1]
+                        elif rv[0] == 'ref':
+                            op = ['c', rv[1]]
+                        else:
+                            break
+                    if op[0] == 'k':
+                        m = re.search(r'"([^"]*)"', str(op[1]))
+                        if m:
+                            out.add(m.group(1))
+        return out, found
+    written, nw = strs(['store'], r'PutOptions::with_meta$', 1)
+    read, nr = strs(['list', 'find_by_id_or_name', 'load'], r'HashMap::<K, V, S(, A)?>::get$', 1)
+    if not rep.floor('R08e', 'metadata keys written by CheckpointStorage::store', len(written), 2) or \
+            not rep.floor('R08e', 'metadata keys read by CheckpointStorage::list', len(read), 2):
+        return
+    f = cr.fns.get(ST + 'store') or next(iter(A.with_closures(cr.fns, ST + 'store')), None)
+    if f is not None:
+        rep.analysed(f)
+    missing = sorted(read - written)
+    if missing:
+        rep.violation('R08e', ST + 'store', 'key-read-but-not-written', '-',
+                      'list() reads the artifact metadata key(s) %s that store() does not write: the listing falls back to defaults for '
+                      'them (the blob\'s creation stamp for created_at), and ordering / retention no longer follow the checkpoints\' own '
+                      'time' % ', '.join('"%s"' % x for x in missing))
+    else:
+        rep.holds('R08e', ST + 'store', 'metadata keys', 'read %s ⊆ written %s' % (sorted(read), sorted(written)))
+
+
 def run(ctx, rep):
     r08a(ctx, rep)
     r08b(ctx, rep)
     r08c(ctx, rep)
     r08d(ctx, rep)
+    r08e(ctx, rep)
     import c07
     c07.r07g(ctx, rep, ctx.crate('tensor_store'))   # rollback copies the image back through restore_from_bytes: every key class must come back
     c07.r07h(ctx, rep, ctx.crate('tensor_store'))   # the checkpoint image is built from the slabs' snapshot()s
